@@ -179,3 +179,38 @@ Proof.
   exists bb_thunk_pattern, 0x1000, (0x1000 + 5 + 2 ^ 31). split; [cbn; lia|]. split; [lia|].
   vm_compute. discriminate.
 Qed.
+
+(* a fresh bb thunk loads r10 with the bb version and jumps to the handler -- within +-2 GiB only
+   (no range check in _MIR_get_bb_thunk either) *)
+Lemma bb_thunk_decodes_partial thunk bbv handler :
+  0 <= bbv < 2 ^ 64 -> 0 <= handler < 2 ^ 64 ->
+  - 2 ^ 31 <= handler - (thunk + 15) <= 2 ^ 31 - 1 ->
+  bb_thunk_exec thunk (get_bb_thunk_bytes thunk bbv handler) = Some (bbv, handler).
+Proof.
+  intros Hb Hh Hd.
+  unfold get_bb_thunk_bytes, bb_thunk_pattern, patch.
+  cbn [firstn skipn app length Nat.add le_bytes].
+  unfold bb_thunk_exec.
+  change ((0x49 =? 0x49) && (0xba =? 0xba) && (0xe9 =? 0xe9)) with true. cbv iota.
+  set (d := handler - (thunk + 15)).
+  change (of_le [d mod 256; d / 256 mod 256; d / 256 / 256 mod 256; d / 256 / 256 / 256 mod 256])
+    with (of_le (le_bytes 4 d)).
+  match goal with |- Some (of_le ?l, _) = _ => change l with (le_bytes 8 bbv) end.
+  rewrite of_le_le_bytes4, of_le_le_bytes8.
+  unfold s32, u32. rewrite swrap_uwrap by lia. rewrite swrap_id by (unfold in_s; lia).
+  f_equal. f_equal.
+  - apply uwrap_id. unfold in_u. lia.
+  - subst d. replace (thunk + 15 + (handler - (thunk + 15))) with handler by lia.
+    apply uwrap_id. unfold in_u. lia.
+Qed.
+
+Lemma bb_thunk_far_refuted :
+  exists thunk bbv handler, 0 <= bbv < 2 ^ 64 /\ 0 <= handler < 2 ^ 64 /\
+    bb_thunk_exec thunk (get_bb_thunk_bytes thunk bbv handler) <> Some (bbv, handler).
+Proof.
+  exists 0x1000, 0x7f0000001234, (0x1000 + 15 + 2 ^ 31). split; [lia|]. split; [lia|].
+  vm_compute. discriminate.
+Qed.
+
+Lemma bb_thunk_bytes_length thunk bbv handler : length (get_bb_thunk_bytes thunk bbv handler) = bb_thunk_size.
+Proof. reflexivity. Qed.
